@@ -329,6 +329,12 @@ class HttpProtocolHandler(BaseTcpServerHandler[HttpClientConnection]):
         # Invoke plugin.on_request_complete
         output = self.plugin.on_request_complete()
         if isinstance(output, bool):
+            # Bytes past the end of the first request, received in the
+            # same segment, are client data like any received later
+            rest = self.request.buffer
+            if output is False and rest is not None and len(rest) > 0:
+                self.request.buffer = None
+                self.plugin.on_client_data(rest)
             return output
         assert isinstance(output, ssl.SSLSocket)
         logger.debug(
